@@ -603,7 +603,13 @@ func NewPackage(pkgPath string, pkg *ast.Package, conf *Config) (p *gogen.Packag
 	}
 
 	gofiles := make([]*ast.File, 0, len(pkg.GoFiles))
-	for _, gof := range pkg.GoFiles {
+	gopaths := make([]string, 0, len(pkg.GoFiles))
+	for fpath := range pkg.GoFiles {
+		gopaths = append(gopaths, fpath)
+	}
+	sort.Strings(gopaths) // load Go files in a fixed order: errors and output must not depend on map order
+	for _, fpath := range gopaths {
+		gof := pkg.GoFiles[fpath]
 		f := fromgo.ASTFile(gof, 0)
 		gofiles = append(gofiles, f)
 		ctx := &blockCtx{
